@@ -123,9 +123,12 @@ fn seq_op(d: &mut Driver, op: &Value) {
     }
 }
 
-fn abs_state(d: &Driver) -> String {
+/// what the final-state comparison looks at: the abstract state and the answer of every probe query (state kept outside
+/// the indexes - a cache, a watermark - shows in the answers, not in the lookups by id)
+fn abs_state(d: &Driver, filters: &[AFilter]) -> String {
     let st = d.project();
-    format!("{}|{}|{}", st["retr"], st["delIds"], st["delAddr"])
+    let pr: Vec<String> = filters.iter().map(|f| { let v = vh::run_query(d.u(), d.st(), f); format!("{}{}", v["r"].as_str().unwrap_or("?"), v["out"]) }).collect();
+    format!("{}|{}|{}|{}", st["retr"], st["delIds"], st["delAddr"], pr.join(";"))
 }
 
 /// The implementation's own sequential transition table: nodes are paths (sequences of thread
@@ -148,7 +151,7 @@ fn seq_table(u: &Universe, tmp: &str, prefix: &[Value], ops: &[Value], filters: 
         for t in path.iter() {
             let _ = run_op(u, d.st(), &ops[*t - 1], filters);
         }
-        fin.push(json!([code(&path), abs_state(&d)]));
+        fin.push(json!([code(&path), abs_state(&d, filters)]));
         d.close();
         drop(td);
         for t in 1..=n {
@@ -342,7 +345,7 @@ fn main() {
             ACTIVE.store(false, Ordering::SeqCst);
             let mut evs = events.into_inner().unwrap();
             evs.sort_by_key(|e| e["s"].as_i64().unwrap_or(0));
-            let fin_state = abs_state(&d);
+            let fin_state = abs_state(&d, &filters);
             d.close();
             drop(td);
             writeln!(out, "{}", json!({"e": "case", "t": 0, "s": -1, "res": "", "id": cid, "round": round as i64,
